@@ -297,9 +297,10 @@ func publishedSig(p *jnode) string {
 }
 
 func checkC17(c *Ctx, r *Report) {
-	r.Rules = []string{"S1 yaml/json key agreement", "S2 published schema equals the statically reflected structure", "S3 enums cover the values the code accepts", "S3 tag default is a member of its own enum", "schema command reflects nfpm.Config", "S4-required only keys whose absence the code rejects are required", "output-truncates command output files are replaced, not overwritten in place"}
+	r.Rules = []string{"S1 yaml/json key agreement", "S2 published schema equals the statically reflected structure", "S3 enums cover the values the code accepts", "S3 tag default is a member of its own enum", "schema command reflects nfpm.Config", "S4-required only keys whose absence the code rejects are required", "output-truncates command output files are replaced, not overwritten in place", "S3-whole an enum-constrained setting is compared as a whole"}
 	r.Explanation = "Struct-tag walk over go/types compared with the repository's published schema and with constants extracted from go/ssa. (S1) every exported field reachable from nfpm.Config has the same yaml and json key, inline status and skip status, so the key paths the strict parser accepts are exactly those the schema (reflected from json tags) allows. (S2) the structure that `nfpm jsonschema` reflects — definitions for every named struct and named slice type, ordered property lists with inline expansion, required = fields without omitempty, additionalProperties:false, type/$ref/format, title, enum and default from the jsonschema tag — is computed statically and compared with www/docs/static/schema.json; any added, removed, renamed or re-typed field, or changed enum, makes the published file stale. (S3) for every field whose tag declares an enum, the string constants the module compares that field against (switch cases, validation chains), stores into it as a default, and — for content entries — the user-settable types the planner accepts, must all be members of the enum (the empty string excepted); the tag's default must be in its enum."
 	r.Explanation += " (S4-required) a key whose json tag lacks omitempty is required by the generated schema; only name, arch, version and a content's dst - whose absence the code rejects - may be. (output-truncates) the commands write their output files with os.WriteFile/os.Create or an os.OpenFile carrying O_TRUNC."
+	r.Explanation += " (S3-whole) every comparison of an enum-constrained field with a constant reads the field itself (through conversions, phis and parameters bound to it), not a value cut or trimmed out of it."
 	r.Assumptions = []string{
 		"invopop/jsonschema v0.13.0 reflects exactly the modelled keywords from the struct tags (model stated in DESIGN appendix A9; examples/description are not compared)",
 		"documents are not validated against the schema; byte identity with the command's output is decided on the modelled keywords only",
@@ -508,6 +509,7 @@ func checkEnums(c *Ctx, r *Report, fields []cfgField) {
 		}
 	}
 	prep := c.Func("files", "PrepareForPackager")
+	derivedCmp := map[string]ssa.Instruction{}
 	for _, fn := range c.ModFuncs {
 		forEachInstr(fn, func(in ssa.Instruction) {
 			switch x := in.(type) {
@@ -530,6 +532,11 @@ func checkEnums(c *Ctx, r *Report, fields []cfgField) {
 						continue // only the planner decides which types a user may set
 					}
 					add(a, constString(k), in)
+					if !plainFieldValue(pa, v, fn, 0) {
+						if _, seen := derivedCmp[a]; !seen {
+							derivedCmp[a] = in
+						}
+					}
 				}
 			case *ssa.Store:
 				k, ok := x.Val.(*ssa.Const)
@@ -581,6 +588,15 @@ func checkEnums(c *Ctx, r *Report, fields []cfgField) {
 			construct := fmt.Sprintf("enum of %s accepts %q", ef.f.YAMLPath, v)
 			r.Check(ef.enum[v], "S3-enum", construct, c.instrPos(vals[v]),
 				fmt.Sprintf("the code accepts the value %q for %s (compared/assigned at %s) but the schema's enum is %v: a configuration the packagers can build is rejected by the published schema", v, ef.f.YAMLPath, c.instrPos(vals[v]), ef.f.Schema["enum"]))
+		}
+		// the constrained value is compared as a whole: a comparison of
+		// something cut out of it (the part before a ':', a trimmed suffix)
+		// means the code accepts spellings the enum cannot list
+		if at, bad := derivedCmp[ef.atom]; bad && ef.atom != "Info.Overridables.RPM.Compression" {
+			r.Fail("S3-whole", "enum of "+ef.f.YAMLPath+" is decided on the whole value", c.instrPos(at),
+				"the code compares a value derived from "+ef.f.YAMLPath+" (split, cut or trimmed) with its accepted names: the setting then takes forms such as name:level that the schema's enum "+fmt.Sprint(ef.f.Schema["enum"])+" rejects")
+		} else if ef.atom != "Info.Overridables.RPM.Compression" {
+			r.Pass("S3-whole", "enum of "+ef.f.YAMLPath+" is decided on the whole value", c.pos(ef.f.Var.Pos()), "every comparison reads the field itself")
 		}
 		if d := ef.f.Schema["default"]; len(d) > 0 {
 			construct := fmt.Sprintf("default of %s is in its enum", ef.f.YAMLPath)
@@ -733,4 +749,64 @@ func checkSchemaKeywords(c *Ctx, r *Report, fields []cfgField) {
 		}
 	}
 	r.Floor("S3-expand", nenum, 5)
+}
+
+// plainFieldValue: v is the configuration field as it stands - a load of it,
+// through conversions and phis, or a parameter every call site binds to such
+// a load.
+func plainFieldValue(pa *provAnalysis, v ssa.Value, fn *ssa.Function, depth int) bool {
+	v = stripConv(v)
+	switch x := v.(type) {
+	case *ssa.UnOp:
+		if x.Op != token.MUL {
+			return false
+		}
+		_, isFA := x.X.(*ssa.FieldAddr)
+		if isFA {
+			return true
+		}
+		// a local cell holding the value
+		if al, isAl := x.X.(*ssa.Alloc); isAl {
+			if st := singleAssignment(al); st != nil {
+				return plainFieldValue(pa, st.Val, fn, depth+1)
+			}
+		}
+		return false
+	case *ssa.Phi:
+		if depth > 4 {
+			return false
+		}
+		for _, e := range x.Edges {
+			if _, isK := e.(*ssa.Const); isK {
+				continue
+			}
+			if !plainFieldValue(pa, e, fn, depth+1) {
+				return false
+			}
+		}
+		return true
+	case *ssa.Parameter:
+		if depth > 3 || fn == nil {
+			return false
+		}
+		idx := -1
+		for i, q := range fn.Params {
+			if q == x {
+				idx = i
+			}
+		}
+		sites := pa.callSites(fn)
+		if idx < 0 || len(sites) == 0 {
+			return false
+		}
+		for _, cs := range sites {
+			if idx >= len(cs.Common().Args) || !plainFieldValue(pa, cs.Common().Args[idx], cs.Parent(), depth+1) {
+				return false
+			}
+		}
+		return true
+	case *ssa.FreeVar:
+		return true // a captured variable: not followed, assumed to hold the field
+	}
+	return false
 }
